@@ -3,12 +3,13 @@
 (the property text only; nothing from /verif) for an independent mutation-seeding sub-agent."""
 import json, os, subprocess, sys
 pid = sys.argv[1]; n = int(sys.argv[2]) if len(sys.argv) > 2 else 2
+WAVE = int(sys.argv[3]) if len(sys.argv) > 3 else 1
 wt = f"/tmp/mut-{pid}"
 if not os.path.exists(wt):
     subprocess.check_call(["git", "-C", "/repo", "worktree", "add", "-q", "--detach", wt, "HEAD"])
 d = [json.loads(l) for l in open("/verif/properties.jsonl")]
 d = [x for x in d if x["id"] == pid][0]
-letters = "abcdef"[:n]
+letters = ("abcdef" if WAVE == 1 else "cdefgh")[:n]
 anch = d["anchors"]
 mech = "\n".join(f"  - {m['name']} ({m['where']})" for m in anch.get("mechanism", []))
 state = "\n".join(f"  - {m['name']}: {m.get('meaning','')} ({m['where']})" for m in anch.get("state", []))
@@ -49,6 +50,8 @@ prefix, ...), a multi-step sequence of operations, a particular order of first a
 two cooperating sites that each look fine alone — NOT something ordinary use would expose at once. Prefer subtle
 arithmetic / indexing / ordering / aliasing faults over crashes. The changes should hit different mechanisms / clauses of
 the property.
+
+{"This is a SECOND round: an earlier round already produced the most natural slips (dropped copies / aliasing of int8 arrays, parallel-edge overwrites, nx/ny swaps, off-by-one thresholds, one-shot iterators, unseeded RNG draws). Look for DIFFERENT mechanisms and clauses of the property than those: less-travelled clauses of the statement, interactions between two functions, behaviour that depends on call order or on cached state, inputs at the edge of the quantified domain." if WAVE > 1 else ""}
 
 For each change (call them {', '.join(letters)}) write into {wt}/out/<letter>/ :
  - patch.diff  (`git diff` in the worktree with only that change applied)
